@@ -973,4 +973,312 @@ theorem paren_eq_gf (s : Str) :
 
 end
 
+theorem partial_named {k : Knot} {i : Str} (hh : headAll (· ≠ '(') i = true) :
+    Res.errEq (partialType k i) (namedPartialType k i) := by
+  have hun : Fails (verify (pmap (fieldsIn '(' ')' k) fun fs => Ty.tuple none fs true)
+      fun | .tuple _ fs _ => fs.isEmpty || fs.any Field.isNamed | _ => false) i :=
+    Fails.verify (Fails.pmap (fieldsIn_fails_head k _ _ hh))
+  show Res.errEq (alt (namedPartialType k) _ i) _
+  cases e : namedPartialType k i with
+  | ok t r => rw [alt_of_ok e]; exact Or.inl rfl
+  | out => simp only [alt, e]; exact Or.inl rfl
+  | err x y =>
+    rw [alt_of_fails ⟨x, y, e⟩]
+    obtain ⟨a, b, h⟩ := hun
+    exact Or.inr ⟨⟨a, b, h⟩, ⟨x, y, rfl⟩⟩
+
+theorem parenType_fails_head (gf : Bool) (k : Knot) {i : Str} (hh : headAll (· ≠ '(') i = true) :
+    Fails (parenType gf k) i := by
+  have h1 : Fails (parenList k) i := Fails.seq (pchar_fails_of_head hh)
+  have h2 : Fails (parenProcessType k) i := Fails.delimited (pchar_fails_of_head hh)
+  obtain ⟨a, b, h1⟩ := h1
+  obtain ⟨c, d, h2⟩ := h2
+  unfold Fails parenType
+  simp only [h1, h2]
+  cases gf <;> simp [parenAfterPartial, groupDecision]
+
+theorem process_at {k : Knot} {i : Str} (hh : headAll (· ≠ '(') i = true) :
+    processType k i = atProcessType k i := by
+  show alt (parenProcessType k) (atProcessType k) i = _
+  exact alt_of_fails (Fails.delimited (pchar_fails_of_head hh))
+
+theorem baseTypeF_eq_nonparen (k : Knot) {i : Str} (hh : headAll (· ≠ '(') i = true) :
+    baseTypeF k i = baseTypeWith k i := by
+  obtain ⟨a, b, hg⟩ := groupType_fails_head k hh
+  obtain ⟨c, d, hp⟩ := parenType_fails_head false k hh
+  have hq := process_at (k := k) hh
+  have hn := partial_named (k := k) hh
+  simp only [baseTypeF, baseTypeWith, alt, hg, hp, hq]
+  rcases hn with hn | ⟨⟨x, y, h1⟩, ⟨x', y', h2⟩⟩
+  · rw [hn]
+  · rw [h1, h2]
+
+theorem functionIoTypeF_eq_nonparen (k : Knot) {i : Str} (hh : headAll (· ≠ '(') i = true) :
+    functionIoTypeF k i = functionIoType k i := by
+  obtain ⟨a, b, hg⟩ := groupType_fails_head k hh
+  obtain ⟨c, d, hp⟩ := parenType_fails_head true k hh
+  have hq := process_at (k := k) hh
+  have hn := partial_named (k := k) hh
+  simp only [functionIoTypeF, functionIoType, alt, hg, hp, hq]
+  rcases hn with hn | ⟨⟨x, y, h1⟩, ⟨x', y', h2⟩⟩
+  · rw [hn]
+  · rw [h1, h2]
+
+
+section
+variable {k : Knot} (hk : KHead k)
+include hk
+
+theorem baseTypeF_eq_paren (s : Str) : baseTypeF k ('(' :: s) = baseTypeWith k ('(' :: s) := by
+  obtain ⟨a1, b1, h1⟩ := tupleType_fails_head k (i := '(' :: s) (by simp [headAll, isUpper])
+  obtain ⟨a2, b2, h2⟩ := resourceType_fails_head (i := '(' :: s) (by simp [headAll])
+  obtain ⟨a3, b3, h3⟩ := typeCycle_fails_head (i := '(' :: s) (by simp [headAll])
+  obtain ⟨a4, b4, h4⟩ := typeParameter_fails_head (i := '(' :: s) (by simp [headAll])
+  obtain ⟨a5, b5, h5⟩ := moduleType_fails_head k (i := '(' :: s) (by simp [headAll])
+  obtain ⟨a6, b6, h6⟩ := typeIdentifier_fails_head k (i := '(' :: s) (by simp [headAll])
+  have h7 : Fails (namedPartialType k) ('(' :: s) :=
+    Fails.bind (tupleName_fails_of_head (by simp [headAll, isUpper]))
+  obtain ⟨a7, b7, h7⟩ := h7
+  have h8 : Fails (atProcessType k) ('(' :: s) := Fails.seq (pchar_ne (by decide) _)
+  obtain ⟨a8, b8, h8⟩ := h8
+  have hx := paren_eq hk s
+  simp only [alt] at hx
+  simp only [baseTypeF, baseTypeWith, alt, h1, h2, h3, h4, h5, h6, h7, h8]
+  cases hP : partialType k ('(' :: s) <;> cases hQ : processType k ('(' :: s) <;>
+    cases hG : groupType k ('(' :: s) <;> simp only [hP, hQ, hG] at hx ⊢ <;>
+    (rcases hx with hx | ⟨⟨_, _, e1⟩, ⟨_, _, e2⟩⟩
+     · rw [← hx]
+     · first | (cases e1; done) | (rw [e2]))
+
+theorem functionIoTypeF_eq_paren (s : Str) :
+    functionIoTypeF k ('(' :: s) = functionIoType k ('(' :: s) := by
+  obtain ⟨a1, b1, h1⟩ := tupleType_fails_head k (i := '(' :: s) (by simp [headAll, isUpper])
+  obtain ⟨a2, b2, h2⟩ := resourceType_fails_head (i := '(' :: s) (by simp [headAll])
+  obtain ⟨a3, b3, h3⟩ := typeCycle_fails_head (i := '(' :: s) (by simp [headAll])
+  obtain ⟨a5, b5, h5⟩ := moduleType_fails_head k (i := '(' :: s) (by simp [headAll])
+  obtain ⟨a6, b6, h6⟩ := typeIdentifier_fails_head k (i := '(' :: s) (by simp [headAll])
+  have h7 : Fails (namedPartialType k) ('(' :: s) :=
+    Fails.bind (tupleName_fails_of_head (by simp [headAll, isUpper]))
+  obtain ⟨a7, b7, h7⟩ := h7
+  have h8 : Fails (atProcessType k) ('(' :: s) := Fails.seq (pchar_ne (by decide) _)
+  obtain ⟨a8, b8, h8⟩ := h8
+  have hx := paren_eq_gf hk s
+  simp only [alt] at hx
+  simp only [functionIoTypeF, functionIoType, alt, h1, h2, h3, h5, h6, h7, h8]
+  cases hP : partialType k ('(' :: s) <;> cases hQ : processType k ('(' :: s) <;>
+    cases hG : groupType k ('(' :: s) <;> simp only [hP, hQ, hG] at hx ⊢ <;>
+    (rcases hx with hx | ⟨⟨_, _, e1⟩, ⟨_, _, e2⟩⟩
+     · rw [← hx]
+     · first | (cases e1; done) | (rw [e2]))
+
+/-- one level, every input: the patched `base_type` is the old one -/
+theorem baseTypeF_eq : baseTypeF k = baseTypeWith k := by
+  funext i
+  cases i with
+  | nil => exact baseTypeF_eq_nonparen k rfl
+  | cons c s =>
+    by_cases hc : c = '('
+    · subst hc; exact baseTypeF_eq_paren hk s
+    · exact baseTypeF_eq_nonparen k (by simpa [headAll] using hc)
+
+theorem functionIoTypeF_eq : functionIoTypeF k = functionIoType k := by
+  funext i
+  cases i with
+  | nil => exact functionIoTypeF_eq_nonparen k rfl
+  | cons c s =>
+    by_cases hc : c = '('
+    · subst hc; exact functionIoTypeF_eq_paren hk s
+    · exact functionIoTypeF_eq_nonparen k (by simpa [headAll] using hc)
+
+theorem typeDefinitionF_eq :
+    typeDefinitionF k (baseTypeF k) = typeDefinitionWith k (baseTypeWith k) := by
+  unfold typeDefinitionF typeDefinitionWith functionTypeF functionType
+  rw [baseTypeF_eq hk, functionIoTypeF_eq hk]
+
+end
+
+/-! ### Every unfolded knot has `KHead` -/
+
+/-- the first character cannot start a type (nor whitespace / a comment in front of a leading `|`) -/
+def notTypeStart (c : Char) : Bool :=
+  !isUpper c && c != '\'' && c != '[' && c != '(' && c != '#' && c != '|' && c != '\\' &&
+  c != '^' && c != '@' && c != '<' && c != '/' && !isMultispace c
+
+theorem base_fails_head (k : Knot) {c : Char} (s : Str)
+    (hc : (!isUpper c && c != '\'' && c != '[' && c != '(' && c != '\\' && c != '^' && c != '@' &&
+      c != '<') = true) : Fails (baseTypeWith k) (c :: s) := by
+  simp only [Bool.and_eq_true, Bool.not_eq_true', bne_iff_ne, ne_eq] at hc
+  obtain ⟨⟨⟨⟨⟨⟨⟨h1, h2⟩, h3⟩, h4⟩, h5⟩, h6⟩, h7⟩, h8⟩ := hc
+  have hd : ∀ d : Char, c ≠ d → headAll (· ≠ d) (c :: s) = true := by
+    intro d h; simpa [headAll] using h
+  unfold baseTypeWith
+  refine Fails.alt (tupleType_fails_head k (by simp [headAll, h1, h2, h3]))
+    (Fails.alt (partialType_fails_head k (by simp [headAll, h1, h4])) ?_)
+  refine Fails.alt (resourceType_fails_head (hd _ h5)) ?_
+  refine Fails.alt (typeCycle_fails_head (hd _ h6)) ?_
+  refine Fails.alt (processType_fails_head k (hd _ h4) (hd _ h7)) ?_
+  refine Fails.alt (typeParameter_fails_head (hd _ h8)) ?_
+  refine Fails.alt (moduleType_fails_head k (hd _ h2)) ?_
+  refine Fails.alt (groupType_fails_head k (hd _ h4)) ?_
+  refine Fails.alt (typeIdentifier_fails_head k (hd _ h2)) ?_
+  exact Fails.seq (pchar_fails_of_head (hd _ h2))
+
+theorem td_fails_head (k : Knot) {c : Char} (s : Str) (hc : notTypeStart c = true) :
+    Fails (typeDefinitionWith k (baseTypeWith k)) (c :: s) := by
+  have hc' := hc
+  simp only [notTypeStart, Bool.and_eq_true, Bool.not_eq_true', bne_iff_ne, ne_eq] at hc'
+  obtain ⟨⟨⟨⟨⟨⟨⟨⟨⟨⟨⟨h1, h2⟩, h3⟩, h4⟩, h5⟩, h6⟩, h7⟩, h8⟩, h9⟩, h10⟩, h11⟩, h12⟩ := hc'
+  have hwsc : wsc (c :: s) = .ok () (c :: s) := wsc_of_head (by simp [headAll, h12, h11])
+  unfold typeDefinitionWith
+  refine Fails.alt (functionType_fails_head k (by simpa [headAll] using h5)) ?_
+  have hbar : Fails (barOp '|') (c :: s) :=
+    Fails.seq_ok (a := ()) hwsc (Fails.seq (pchar_ne h6 _))
+  refine Fails.seq_ok (opt_of_fails hbar) (Fails.bind (Fails.bind ?_))
+  exact base_fails_head k s (by simp [h1, h2, h3, h4, h7, h8, h9, h10])
+
+theorem lower_notTypeStart {c : Char} (h : isLower c = true) : notTypeStart c = true := by
+  have h' := h
+  simp only [isLower, Bool.and_eq_true, decide_eq_true_eq] at h'
+  have hu : isUpper c = false := (lower_facts h).1
+  have hws := lower_not_ws h
+  simp only [Bool.and_eq_true, Bool.not_eq_true', bne_iff_ne, ne_eq] at hws
+  simp only [notTypeStart, Bool.and_eq_true, Bool.not_eq_true', bne_iff_ne, ne_eq, hu, hws.1, true_and,
+    and_true]
+  refine ⟨⟨⟨⟨⟨⟨⟨⟨⟨?_, ?_⟩, ?_⟩, ?_⟩, ?_⟩, ?_⟩, ?_⟩, ?_⟩, ?_⟩, ?_⟩ <;>
+    (intro e; subst e; revert h; decide)
+
+theorem KHead.step (k : Knot) : KHead k.step where
+  lowdot := by
+    intro c s hc
+    simp only [Knot.step]
+    rcases hc with rfl | hc
+    · exact td_fails_head k s (by decide)
+    · exact td_fails_head k s (lower_notTypeStart hc)
+  commentBar := by
+    intro t hbar
+    simp only [Knot.step]
+    cases hq : skipWsc false ('/' :: '/' :: t) with
+    | nil => rw [hq] at hbar; simp [headIs] at hbar
+    | cons d q0 =>
+      rw [hq] at hbar
+      have hd : d = '|' := by simpa [headIs] using hbar
+      subst hd
+      have hb1 : barOp '|' ('/' :: '/' :: t) = .ok () (skipWsc false q0) := by
+        simp [barOp, seq, Parse.bind, wsc, hq, pchar]
+      have hb2 : barOp '|' ('|' :: q0) = .ok () (skipWsc false q0) := by
+        have : skipWsc false ('|' :: q0) = '|' :: q0 :=
+          skipWsc_of_head (by simp [headAll, isMultispace])
+        simp [barOp, seq, Parse.bind, wsc, this, pchar]
+      unfold typeDefinitionWith
+      rw [alt_of_fails (functionType_fails_head k (by simp [headAll])),
+        alt_of_fails (functionType_fails_head k (by simp [headAll])),
+        seq_ok (opt_ok hb1), seq_ok (opt_ok hb2)]
+  commentNoBar := by
+    intro t hbar
+    simp only [Knot.step]
+    unfold typeDefinitionWith
+    refine Fails.alt (functionType_fails_head k (by simp [headAll])) ?_
+    have hb : Fails (barOp '|') ('/' :: '/' :: t) := by
+      refine Fails.seq_ok (a := ()) (r := skipWsc false ('/' :: '/' :: t)) (by simp [wsc]) (Fails.seq ?_)
+      cases hq : skipWsc false ('/' :: '/' :: t) with
+      | nil => exact pchar_nil _
+      | cons d q0 =>
+        rw [hq] at hbar
+        exact pchar_ne (by simpa [headIs] using hbar) _
+    refine Fails.seq_ok (opt_of_fails hb) (Fails.bind (Fails.bind ?_))
+    exact base_fails_head k _ (by decide)
+
+theorem knot_khead (n : Nat) : KHead (knot (n + 1)) := KHead.step (knot n)
+
+/-! ### The two grammars are the same function of the input -/
+
+/-- the knot `knot n`, cut off (fuel-out) at inputs of length `≥ n` -/
+def knotCut (n : Nat) : Knot :=
+  { td := fun j => if j.length < n then (knot n).td j else .out,
+    bt := fun j => if j.length < n then (knot n).bt j else .out }
+
+theorem knotCut_sound (n : Nat) : KSound (knotCut n) := by
+  have := knot_sound n
+  constructor
+  · intro j; simp only [knotCut]; split
+    · exact this.1 j
+    · trivial
+  · intro j; simp only [knotCut]; split
+    · exact this.2 j
+    · trivial
+
+theorem knotCut_tot (n : Nat) : KTot n (knotCut n) := by
+  have := knot_tot n
+  constructor
+  · intro j hj; simp only [knotCut, hj, if_true]; exact this.1 j hj
+  · intro j hj; simp only [knotCut, hj, if_true]; exact this.2 j hj
+
+theorem knotCut_le (n : Nat) : KLe (knotCut n) (knot n) := by
+  constructor
+  · intro j hj; simp only [knotCut] at hj ⊢; split at hj
+    · rename_i h; simp [h]
+    · exact absurd rfl hj
+  · intro j hj; simp only [knotCut] at hj ⊢; split at hj
+    · rename_i h; simp [h]
+    · exact absurd rfl hj
+
+theorem base_fails_nil (k : Knot) : Fails (baseTypeWith k) [] := by
+  unfold baseTypeWith
+  refine Fails.alt (tupleType_fails_head k rfl) (Fails.alt (partialType_fails_head k rfl) ?_)
+  refine Fails.alt (resourceType_fails_head rfl) ?_
+  refine Fails.alt (typeCycle_fails_head rfl) ?_
+  refine Fails.alt (processType_fails_head k rfl rfl) ?_
+  refine Fails.alt (typeParameter_fails_head rfl) ?_
+  refine Fails.alt (moduleType_fails_head k rfl) ?_
+  refine Fails.alt (groupType_fails_head k rfl) ?_
+  refine Fails.alt (typeIdentifier_fails_head k rfl) ?_
+  exact Fails.seq (pchar_fails_of_head rfl)
+
+theorem td_nil_eq (k : Knot) :
+    typeDefinitionF k (baseTypeF k) [] = typeDefinitionWith k (baseTypeWith k) [] := by
+  have hb := baseTypeF_eq_nonparen k (i := []) rfl
+  obtain ⟨e, c, he⟩ := base_fails_nil k
+  simp [typeDefinitionF, typeDefinitionWith, alt, functionTypeF, functionType, seq, Parse.bind,
+    pchar, opt, barOp, wsc, skipWsc, intersectionType, hb, he]
+
+/-- **knotF_eq**: with any fuel, on every input within that fuel, the left-factored grammar and the
+    original grammar give the same answer (value, remainder, error position and code). -/
+theorem knotF_eq (n : Nat) : ∀ i : Str, i.length < n →
+    (knotF n).td i = (knot n).td i ∧ (knotF n).bt i = (knot n).bt i := by
+  induction n with
+  | zero => intro i h; omega
+  | succ n ih =>
+    intro i hi
+    -- the cut knot is below both
+    have hle1 := knotCut_le n
+    have hle2 : KLe (knotCut n) (knotF n) := by
+      constructor
+      · intro j hj; simp only [knotCut] at hj ⊢; split at hj
+        · rename_i h; simp only [h, if_true]; exact (ih j h).1
+        · exact absurd rfl hj
+      · intro j hj; simp only [knotCut] at hj ⊢; split at hj
+        · rename_i h; simp only [h, if_true]; exact (ih j h).2
+        · exact absurd rfl hj
+    have sk := knotCut_sound n
+    have tk := knotCut_tot n
+    have hbt : baseTypeF (knotF n) i = baseTypeF (knot n) i := by
+      have hne := baseTypeF_tot sk tk i hi
+      rw [baseTypeF_ple hle2 i hne, baseTypeF_ple hle1 i hne]
+    have htd : typeDefinitionF (knotF n) (baseTypeF (knotF n)) i =
+        typeDefinitionF (knot n) (baseTypeF (knot n)) i := by
+      have hne := typeDefinitionF_tot sk tk (baseTypeF_sound sk) (baseTypeF_tot sk tk) i hi
+      rw [typeDefinitionF_ple hle2 (baseTypeF_ple hle2) i hne,
+        typeDefinitionF_ple hle1 (baseTypeF_ple hle1) i hne]
+    show typeDefinitionF (knotF n) (baseTypeF (knotF n)) i = typeDefinitionWith (knot n) (baseTypeWith (knot n)) i ∧
+      baseTypeF (knotF n) i = baseTypeWith (knot n) i
+    rw [hbt, htd]
+    cases n with
+    | zero =>
+      have : i = [] := List.eq_nil_of_length_eq_zero (by omega)
+      subst this
+      exact ⟨td_nil_eq _, baseTypeF_eq_nonparen _ rfl⟩
+    | succ m =>
+      have hk := knot_khead m
+      exact ⟨by rw [typeDefinitionF_eq hk], by rw [baseTypeF_eq hk]⟩
+
 end QM.Parse
